@@ -145,7 +145,7 @@ class Batch:
         self.exes = {}
 
 
-def prepare(ctx, tools, sources, max_in=3, max_inputs=8, max_choices=3, dstcap=3):
+def prepare(ctx, tools, sources, max_in=3, max_inputs=8, max_choices=3, dstcap=3, lenient=False):
     b = Batch()
     wd = ctx.subdir("wcore")
     b.cdir = os.path.join(wd, "c")
@@ -163,7 +163,7 @@ def prepare(ctx, tools, sources, max_in=3, max_inputs=8, max_choices=3, dstcap=3
             return ("rej", name, origin, d["error"])
         p = wcore.Prog(d, pkg, text)
         out, why = wcore.enrich(p, random.Random(ctx.seed * 7919 + k), max_in=max_in, max_inputs=max_inputs,
-                                max_choices=max_choices, dstcap=dstcap, allargs=bool(re.search(r"^// wcore:.*\ballargs\b", text, re.M)))
+                                max_choices=max_choices, dstcap=dstcap, allargs=bool(re.search(r"^// wcore:.*\ballargs\b", text, re.M)), lenient=lenient)
         if out is None:
             return ("skip", name, origin, why)
         c = subprocess.run([tools["wuffs-c"], "gen", "-package_name", pkg, src], capture_output=True, text=True, timeout=120)
@@ -419,7 +419,8 @@ def replay(ctx, b, hists, exe, per_line_s=3.0, dead=None):
                 exp_ret = c["rv"] if f["rets"] == "num" and isinstance(c["rv"], int) else 0
                 # (the source's write index and closed flag belong to the caller: a call returns them as it got them)
                 ok = (rep is not None and rep["st"] == exp_st and rep["ri"] == c["ri"] and rep["out"] == c["out"] and rep["ret"] == exp_ret
-                      and rep["swi"] == c["wi0"] and rep["sclosed"] == (1 if c["closed0"] else 0))
+                      and rep["swi"] == c["wi0"] and rep["sclosed"] == (1 if c["closed0"] else 0)
+                      and rep.get("pchg", -1) <= 0)       # (a method declared pure leaves the receiver and the buffers unchanged)
                 if not ok:
                     bad.append({"prog": p["name"], "origin": p["origin"], "input": h["input"], "call_index": k2, "history": h["hist"][:k2 + 1],
                                 "spec_expects": {"status": exp_st, "ri": c["ri"], "out": c["out"], "ret": exp_ret, "swi": c["wi0"], "sclosed": 1 if c["closed0"] else 0},
@@ -581,3 +582,49 @@ def coverage_common(ctx, b, stats, st, hists=None):
         "tlc_process_runs": stats["runs"],
     }
     return cov
+
+
+# ------------------------------------------------------------------- pure-method probes (C10)
+
+def pure_probe(ctx, b, exe, per_line_s=3.0):
+    """Model-free probe of the frame condition of pure methods on every accepted program of the batch: after
+    initialize and one call of every impure non-coroutine method (so that the receiver is not all zeroes), every
+    method declared pure is called with every exported argument choice while the driver snapshots the receiver's
+    bytes and the destination buffer around the call.  Returns rows [{prog, fn, pure, objchg, bufchg, args}]."""
+    rows = []
+    lines, owners = [], []
+    for i, p in enumerate(b.progs):
+        pubs = [f for f in p["funcs"] if f["pub"]]
+        pures = [f for f in pubs if f["eff"] == "" and not any(prm["kind"] not in ("num",) for prm in f["params"])]
+        if not pures:
+            continue
+        lines.append("H %d -" % i)
+        owners.append(None)
+
+        def kv(f, ch):
+            return " ".join("%s=%d" % (a["n"], a["v"]) for a in ch if isinstance(a["v"], int))
+        for f in pubs:
+            if f["eff"] == "!" and f["choices"] and all(prm["kind"] == "num" for prm in f["params"]):
+                for ch in f["choices"][-2:]:
+                    lines.append("C %s 0 1 3 %s" % (f["name"], kv(f, ch)))
+                    owners.append(None)
+        for f in pures:
+            for ch in (f["choices"] or [[]])[:40]:
+                lines.append("C %s 0 1 3 %s" % (f["name"], kv(f, ch)))
+                owners.append((p, f, ch))
+    if not lines:
+        return rows
+    outl, why = _drive(exe, lines, per_line_s)
+    if why is not None:
+        # a hang or crash of a generated program is C04's / C01's business; here only complete probes count
+        ctx.notes.append("pure-method probe: the driver stopped early (%s) after %d of %d lines" % (why, len(outl), len(lines)))
+    for ln, own in zip(outl, owners):
+        if own is None:
+            continue
+        rep = wcore.parse_reply(ln)
+        if rep is None or rep.get("pchg", -1) < 0:
+            continue
+        p, f, ch = own
+        rows.append({"prog": p["name"], "fn": f["name"], "pure": True, "objchg": bool(rep["pchg"] & 1), "bufchg": bool(rep["pchg"] & 2),
+                     "args": {a["n"]: a["v"] for a in ch}, "src": p["src"]})
+    return rows
